@@ -80,6 +80,13 @@ Definition entry (sel : Z) (toks : list Z) : list Z :=
              let '(s, outs) := crun r ps cinit ops in
              flat_map eCout outs ++ tag 4 ++ eList ePair (c_queue s)
          | None => bad_input end
+  (* the same calculator history, run by the harness through the agent's REAL constructor
+     NewCalculator (registered policy, metric collector manager, config getters) *)
+  | 5 => match run_dec (let* r := dZ in let* ps := dList (dList dPod) in let* ops := dList dCop in ret (r, ps, ops)) toks with
+         | Some (r, ps, ops) =>
+             let '(s, outs) := crun r ps cinit ops in
+             flat_map eCout outs ++ tag 4 ++ eList ePair (c_queue s)
+         | None => bad_input end
   (* pressure events: pods, failure flags, events *)
   | 2 => match run_dec (let* ps := dList dPod in let* fl := dList dBool in let* evs := dList dEvent in ret (ps, fl, evs)) toks with
          | Some (ps, fl, evs) =>
@@ -139,6 +146,14 @@ Definition entry (sel : Z) (toks : list Z) : list Z :=
                           let* cs := dList (dPair (dList dCall) (dList dCall)) in
                           let* af := dList dZ in ret (ps, cs, af)) toks with
            | Some (ps, cs, af) => eBool (law_cleanup ps cs af)
+           | None => bad_input end
+  | 112 => match run_dec (let* ps := dList dPod in let* cs := dList dCall in
+                          let* af := dList dZ in ret (ps, cs, af)) toks with
+           | Some (ps, cs, af) => eBool (law_no_eviction ps cs af)
+           | None => bad_input end
+  | 126 => match run_dec (let* r := dZ in let* a := dZ in let* b := dZ in
+                          let* ac := dOpt dZ in let* am := dOpt dZ in ret (r, a, b, ac, am)) toks with
+           | Some (r, a, b, ac, am) => eBool (law_node_current r a b ac am)
            | None => bad_input end
   | 120 => match run_dec (let* r := dZ in let* a := dZ in let* b := dZ in let* k := dBool in
                           let* xc := dOpt dZ in let* xm := dOpt dZ in ret (r, a, b, k, xc, xm)) toks with
